@@ -343,3 +343,82 @@ def kernel_obligations(tier):
 def results(tier):
     from pyvc import solve
     return [solve.custom_result('codegen:kernel-parse-back', FC, 'AsmGenerator.generate_kernel / generate_precomp / gencode', lambda: kernel_obligations(tier))]
+
+
+# ---- update(): every array variable fed by an updatable input is refreshed ----------------------------------------------------------
+_UPD_FORMS = [
+    # (label, dim, arity, builder(V, vf, u, v) -> list of updatable names)
+    ('f*u*v', 2, 2, lambda V, vf, u, v: (vf.add(vf.input('f', updatable=True) * u * v * V.dx), ['f'])[1]),
+    ('f and grad(f)', 2, 2, lambda V, vf, u, v: (lambda f: (vf.add(f * u * v * V.dx + V.inner(V.grad(f), V.grad(v)) * u * V.dx), ['f'])[1])(vf.input('f', updatable=True))),
+    ('grad(f) and hess(f) 3D', 3, 2, lambda V, vf, u, v: (lambda f: (vf.add(V.inner(V.grad(f), V.grad(v)) * u * V.dx + V.tr(V.hess(f)) * u * v * V.dx), ['f'])[1])(vf.input('f', updatable=True))),
+    ('two fields, functional', 2, 1, lambda V, vf, u, v: (lambda f, g: (vf.add((f * g + V.inner(V.grad(f), V.grad(g))) * u * V.dx), ['f', 'g'])[1])(
+        vf.input('f', updatable=True), vf.input('g', updatable=True))),
+    ('one of two fields', 2, 2, lambda V, vf, u, v: (lambda f, g: (vf.add(f * u * v * V.dx + g * u * v * V.dx + V.inner(V.grad(g), V.grad(v)) * u * V.dx), ['g'])[1])(
+        vf.input('f'), vf.input('g', updatable=True))),
+    ('vector field', 2, 2, lambda V, vf, u, v: (lambda b: (vf.add(V.inner(b, V.grad(u)) * v * V.dx + V.div(b) * u * v * V.dx), ['b'])[1])(vf.input('b', shape=(2,), updatable=True))),
+]
+
+
+def update_coherence_obligations():
+    """the generated update(name=...) must refresh EVERY slice of self.fields that __init__ fills from that input (value, gradient,
+    Hessian, ... are separate array variables): for each form, the set of (slice, right-hand side) pairs __init__ assigns from an
+    updatable input equals the set update() assigns under `if <name>:`.  The generator's text is parsed; forms are built on the real
+    vform/codegen modules of the tree under check."""
+    import re
+    V, backend = real_modules()
+    obs = []
+    asg = re.compile(r'^\s*self\.fields\.base\[(?P<idx>[^\]]*)\]\s*=\s*(?P<rhs>.*)$')
+    for label, dim, arity, build in _UPD_FORMS:
+        oid = 'codegen:update[%s]:refreshes-every-dependent-field' % label
+        t0 = time.time()
+        try:
+            vf = V.VForm(dim, arity=arity)
+            bf = vf.basisfuns()
+            u, v = (bf if arity == 2 else (bf, bf)) if not isinstance(bf, tuple) or arity == 2 else (bf[0], bf[0])
+            names = build(V, vf, u, v)
+            code = backend.CodeGen()
+            backend.AsmGenerator(vf, 'UpdAsm', code).generate()
+            txt = code.result()
+        except Exception as e:
+            obs.append(_ob(oid, 'unknown', 'update() refreshes every field slice that depends on an updatable input', 'could not generate: %s: %s' % (type(e).__name__, e),
+                           backend='parse of the generated update()', t=time.time() - t0))
+            continue
+        lines = txt.split('\n')
+        try:
+            i0 = next(k for k, l in enumerate(lines) if re.match(r'\s*def __init__', l))
+            i1 = next(k for k, l in enumerate(lines) if re.match(r'\s*def update\(', l))
+        except StopIteration:
+            obs.append(_ob(oid, 'refuted', 'update() refreshes every field slice that depends on an updatable input', 'no update() method generated although %r are updatable' % names,
+                           backend='parse of the generated update()', t=time.time() - t0))
+            continue
+        ind = lambda l: len(l) - len(l.lstrip())
+        end_of = lambda k: next((j for j in range(k + 1, len(lines)) if lines[j].strip() and ind(lines[j]) <= ind(lines[k])), len(lines))
+        init_pairs = {}
+        for l in lines[i0:end_of(i0)]:
+            m = asg.match(l)
+            if m:
+                for nm in names:
+                    if re.search(r'(?<![\w.])%s(?![\w])' % re.escape(nm), m.group('rhs')):
+                        init_pairs.setdefault(nm, set()).add((m.group('idx').replace(' ', ''), m.group('rhs').strip()))
+        upd_pairs = {}
+        cur = None
+        for l in lines[i1 + 1:end_of(i1)]:
+            mm = re.match(r'^\s*if (\w+):\s*$', l)
+            if mm:
+                cur = (mm.group(1), ind(l))
+                continue
+            if cur and l.strip() and ind(l) <= cur[1]:
+                cur = None
+            m = asg.match(l)
+            if m and cur:
+                upd_pairs.setdefault(cur[0], set()).add((m.group('idx').replace(' ', ''), m.group('rhs').strip()))
+        missing = {nm: sorted(init_pairs.get(nm, set()) - upd_pairs.get(nm, set())) for nm in names}
+        missing = {k: v for k, v in missing.items() if v}
+        if not any(init_pairs.get(nm) for nm in names):
+            obs.append(_ob(oid, 'unknown', 'update() refreshes every field slice that depends on an updatable input', '__init__ assigns no field slice from %r (text shape changed?)' % names,
+                           backend='parse of the generated update()', t=time.time() - t0))
+            continue
+        obs.append(_ob(oid, 'refuted' if missing else 'proved', 'update() refreshes every field slice that depends on an updatable input',
+                       'stale after update(): %r (assigned in __init__ from the updatable input, not in update())' % missing,
+                       backend='parse of the generated update()', t=time.time() - t0))
+    return obs, None
